@@ -78,6 +78,7 @@ type c13Blk struct {
 	ObMatured  []string
 	Txs        []string // descriptions (not part of the model input)
 	TxCodes    []uint32
+	AppHash    string
 }
 
 type c13Chain struct {
@@ -302,8 +303,13 @@ func (t *c13Ids) id(a string) int {
 var c13PoolAddr = keys.Address(netdata.DELEGATION_POOL_KEY)
 var c13RewardPool = keys.Address("rewardpool")
 
+// honest mode (-honest): devnet reward options (cycle 100, 5 reward years) and ordinary block times
+var c13Honest bool
+
 func c13PickDT(r *rand.Rand, mode int) time.Duration {
 	switch mode {
+	case 9: // an ordinary chain: about 15 s per block
+		return 14*time.Second + time.Duration(r.Intn(2000))*time.Millisecond
 	case 0: // regular
 		return 15 * time.Second
 	case 1: // irregular seconds, with sub-second parts inside the float guard
@@ -347,6 +353,10 @@ func c13RunChain(seed int64, idx int, nblocks int) c13Chain {
 	r := rand.New(rand.NewSource(seed*1000003 + int64(idx)))
 	ch := c13Chain{Index: idx}
 	o := c13GenOpts(r)
+	if c13Honest {
+		o = c13Opts{Cycle: 100, Est: 1728, Window: 86400, Interval: []int64{5, 150}[r.Intn(2)], Burnout: "5000000000000000000",
+			Shares: []string{"70000000000000000000000000", "70000000000000000000000000", "40000000000000000000000000", "40000000000000000000000000", "30000000000000000000000000"}}
+	}
 	ch.Opts = o
 	ro := c13RewardOptions(o)
 	nv := 1 + r.Intn(8)
@@ -366,6 +376,9 @@ func c13RunChain(seed int64, idx int, nblocks int) c13Chain {
 	delegMode := r.Intn(5) // 0 none, 1 tiny, 2 huge, 3 medium, 4 pool balance without delegators
 	rewardPoolAmt := []string{"1000000000000000000000000", "3000000000000000000", "5", "0"}[r.Intn(4)]
 	dtMode := r.Intn(5)
+	if c13Honest {
+		dtMode, rewardPoolAmt = 9, "1000000000000000000000000"
+	}
 	ch.Descr = fmt.Sprintf("vals=%d powMode=%d delegMode=%d dtMode=%d rewardPool=%s", nv, powMode, delegMode, dtMode, rewardPoolAmt)
 	g.Customize = func(st *consensus.AppState) {
 		st.Governance.RewardOptions = *ro
@@ -559,7 +572,7 @@ func c13RunChain(seed int64, idx int, nblocks int) c13Chain {
 			blk.TxCodes = append(blk.TxCodes, res.Code)
 		}
 		rep.EndBlock()
-		rep.Commit()
+		blk.AppHash = rep.Commit()
 		ch.Blocks = append(ch.Blocks, blk)
 	}
 	return ch
@@ -822,6 +835,7 @@ func c13Main(args []string) int {
 	qops := fs.Int("qops", 60, "operations per cumulative sequence")
 	outDir := fs.String("out", ".", "output directory")
 	tag := fs.String("tag", "0", "suffix of the output files")
+	fs.BoolVar(&c13Honest, "honest", false, "whole-app chains with the devnet reward options and ordinary block times")
 	replayP := fs.String("replay-pcases", "", "JSON file with a list of calculator runs (inputs) to execute first")
 	fs.Parse(args)
 
